@@ -16,6 +16,7 @@ DMAX = 10 ** 6
 
 
 def _kernels():
+    xform.ACC_MERGE = True
     import moptipyapps.ttp.plan_length as pl
     from moptipyapps.ttp.instance import Instance
     gl = xform.transform(pl.game_plan_length)
@@ -506,6 +507,29 @@ def _search_whole(n, rounds, plan, D):
             if bad:
                 w["observed"] = info
                 return w
+    # solver search over all plans of a (smaller) league with a concrete asymmetric matrix
+    for (n2, r2) in ((n, rounds), (4, 1), (2, 2), (2, 3)):
+        if n2 > 4 or (n2 - 1) * r2 > 6:
+            continue
+        Dc = [[0 if a == b else 1 + 5 * a + 3 * b + a * b for b in range(n2)] for a in range(n2)]
+        try:
+            box = _encode(n2, r2, Dconst=Dc)
+        except Exception:
+            continue
+        days2 = box.days
+        for clause, goal in (("definition", box.val != spec_length(box.Y, box.Dm, n2, days2, box.pen)),
+                             ("bounds", z3.Not(z3.And(box.val >= box.lb, box.val <= box.ub)))):
+            r = backend.solve(box.cons + [box.inrange], goal, timeout_s=120, label=f"whole-run witness search {clause}")
+            if r.status == "sat":
+                plan2, D2 = _witness(r.model, n2, days2, Dc)
+                w = dict(plan=plan2, D=D2, n=n2, rounds=r2, clause=clause)
+                try:
+                    bad, info = replay(w)
+                except Exception:
+                    continue
+                if bad:
+                    w["observed"] = info
+                    return w
     return None
 
 
